@@ -102,6 +102,7 @@ class SymList(object):
 
     def __setitem__(self, i, v):
         pos = self._index(i)
+        self.slice_of = None
         self.arr = z3.Store(self.arr, pos, self.codec.to_z3(v))
 
     def _bound(self, b, default):
@@ -112,22 +113,28 @@ class SymList(object):
         be = z3.If(be < 0, z3.If(self.n + be < 0, 0, self.n + be), z3.If(be > self.n, self.n, be))
         return be
 
-    def _slice(self, lo, hi, step):
+    def _slice(self, lo, hi, step, rope=False):
         if step is not None:
             raise Unsupported("slice with step on a symbolic list")
         lo_e = self._bound(lo, z3.IntVal(0))
         hi_e = self._bound(hi, self.n)
         ln = z3.If(hi_e > lo_e, hi_e - lo_e, 0)
+        if rope:
+            return Rope(self.codec, [(self.arr, z3.simplify(lo_e), z3.simplify(ln))], 'slice')
         i = z3.Int('i!slice')
         arr = z3.Lambda([i], z3.Select(self.arr, i + lo_e))
-        return SymList(self.codec, arr, z3.simplify(ln), 'slice')
+        r = SymList(self.codec, arr, z3.simplify(ln), 'slice')
+        r.slice_of = (self.arr, z3.simplify(lo_e), z3.simplify(ln))      # a rope that is extended by it keeps the slice as a segment
+        return r
 
     def append(self, v):
+        self.slice_of = None
         self.arr = z3.Store(self.arr, self.n, self.codec.to_z3(v))
         self.n = z3.simplify(self.n + 1)
 
     def pop(self, i=-1):
         p = sym.cur()
+        self.slice_of = None
         if p.branch(self.n <= 0):
             raise IndexError("pop from empty list")
         if isinstance(i, int) and i == -1:
@@ -144,6 +151,7 @@ class SymList(object):
 
     def extend(self, other):
         other = as_symlist(other, self.codec)
+        self.slice_of = None
         j = z3.Int('i!ext')
         self.arr = z3.Lambda([j], z3.If(j < self.n, z3.Select(self.arr, j), z3.Select(other.arr, j - self.n)))
         self.n = z3.simplify(self.n + other.n)
@@ -243,7 +251,8 @@ class Rope(SymList):
         if isinstance(other, Rope):
             self.segs.extend(other.segs)
         elif isinstance(other, SymList):
-            self.segs.append((other.arr, z3.IntVal(0), other.n))
+            sl = getattr(other, 'slice_of', None)
+            self.segs.append(sl if sl is not None else (other.arr, z3.IntVal(0), other.n))
         elif isinstance(other, (list, tuple)):
             for v in other:
                 self.append(v)
